@@ -429,3 +429,10 @@ package chord
 //@   ensures v.kvWrites == old(v.kvWrites) + 1
 //@ interface (v KV) Get(ctx context.Context, key []byte) (value []byte, err error)
 //@   ensures v.kvWrites == old(v.kvWrites)
+
+// ---- C06 / C07: membership calls on a neighbour. They act on the neighbour's own lifecycle word; nothing reachable
+// from the caller's objects is replaced by them (assumed for remote nodes, which run in another process; a LocalNode
+// neighbour in the same process only touches its own fields, see the contracts in package chord).
+//@ interface (v VNode) RequestToLeave(leaver VNode) (err error)
+//@ interface (v VNode) FinishLeave(stabilize bool, release bool) (err error)
+//@ interface (v VNode) FinishJoin(stabilize bool, release bool) (err error)
